@@ -1,5 +1,6 @@
 import Verif.Proofs.Lang3.Conformance
 import Verif.Proofs.Lang3.Conditions
+import Verif.Proofs.Lang3.Desugar
 /-!
 # C10 — Function pre- and post-conditions are always enforced
 
@@ -88,6 +89,52 @@ def exProg (x0 : Int) : Program :=
 
 example : (exProg 5).runInterp 8 = (.ok (), ⟨8, 0, [.emit 1, .emit 8, .log 8]⟩) := by rfl
 example : ((exProg 0).runInterp 8).1 = .error (.condFailed false) := by rfl
+
+/-- **Desugaring is equivalent to wrapping** (partial).  If in every condition layer the post-conditions
+only use the before-variables declared by that layer (`LayerWf`, what `before` extraction produces) and
+the before statements never fault (`LayerTotal`), and the two engines pick the same default implementation
+(`DefaultsAgree`: the checker admits at most one), then the VM's desugared program — every inherited
+condition inlined into one function: own before statements, inherited before statements (reverse
+conformance order), inherited pre-conditions, own pre-conditions, body, own post-conditions, inherited
+post-conditions (reverse) — has the same outcome, the same final state and the same ordered log / event
+trace as the interpreter's wrapped functions, for every program of the calculus and every call depth.
+Without `LayerTotal` the statement is false: `desugar_differs_witness`. -/
+theorem desugar_equiv_partial (p : Program) (hl : LayersOk p) (hd : DefaultsAgree p) (fuel : Nat) :
+    p.runVM fuel = p.runInterp fuel := by
+  unfold Program.runVM Program.runInterp
+  have h := invoke_equiv p hl hd fuel
+  have : ∀ calls, runMain p.desugarFn fuel calls = runMain p.interpFn fuel calls := by
+    intro calls
+    induction calls with
+    | nil => rfl
+    | cons c cs ih => simp only [runMain, h, ih]
+  rw [this]
+
+/-- non-vacuity of `desugar_equiv_partial`: the diamond program `exProg` (its inherited post-condition uses
+`before(self.a)`) satisfies the hypotheses — `programSafe` is a decidable sufficient condition for
+`LayersOk` — and no interface of it declares a default implementation. -/
+example : LayersOk (exProg 5) := programSafe_ok _ (by decide)
+example : (exProg 5).runVM 8 = (exProg 5).runInterp 8 := by rfl
+example : DefaultsAgree (exProg 5) := by
+  apply defaultsAgree_of_le_one
+  intro name
+  have hc : (exProg 5).confs = [2, 0, 1] := by decide
+  have : (exProg 5).defaults name = [] := by
+    unfold Program.defaults
+    rw [hc, List.filterMap_eq_nil_iff]
+    intro i hi
+    simp at hi
+    rcases hi with rfl | rfl | rfl <;> simp [Program.ifun, exProg] <;> split <;> (try simp_all) <;> (rename_i h; rw [← h.2])
+  simp [this]
+
+
+/-- the VM form therefore enforces the same conditions (corollary of `enforced` and `desugar_equiv_partial`) -/
+theorem enforced_vm_partial (p : Program) (hl : LayersOk p) (hd : DefaultsAgree p)
+    (fuel : Nat) (name : String) (x y : Int) (s s' : St) (r : Int)
+    (h : invoke p.desugarFn fuel name x y s = (.ok r, s')) :
+    ∀ L ∈ layersInScope p name, PreHeld L x y s ∧ PostHeld L x y s s' r := by
+  rw [invoke_equiv p hl hd fuel] at h
+  exact enforced p fuel name x y s s' r h
 
 /-- **Known finding** `vm-before-hoisted-over-pre`.  The VM's desugared function evaluates the `before`
 statements of *all* inherited post-conditions ahead of the first pre-condition, the interpreter
